@@ -89,13 +89,9 @@ class BayesianModelInference(Inference):
         list: List of np.array with each element representing the reduced
                 values correponding to the states in sc_values.
         """
-        try:
-            values = [
-                variable_cpd.get_state_no(variable_evid[i], sc[i])
-                for i in range(len(sc))
-            ]
-        except KeyError:
-            values = sc
+        # `sc` holds state numbers (all callers pass numbers); never look them up
+        # as state names, integer state names would be mistaken for numbers.
+        values = [int(state_no) for state_no in sc]
 
         slice_ = [slice(None) for i in range(len(variable_cpd.variables))]
         for i, index in enumerate(reduce_index):
